@@ -1,7 +1,6 @@
 //! C17 — the bundled fragment memory honours the memory-trait contract.
 //! Reference model: a bag of free buffers + at most one saved context per slot.
 
-use crate::common::*;
 use crate::engine::{bx, guard, hash_of, EnumPart, GenPart, Property, Stats, Tier};
 use dvb_gse_rust::gse_decap::{DecapContext, DecapMemoryError, GseDecapMemory, SimpleGseMemory};
 use dvb_gse_rust::label::Label;
@@ -388,8 +387,8 @@ fn check_enum(i: u64, st: &mut Stats) -> Result<(), String> {
     Ok(())
 }
 
-fn desc_enum(i: u64) -> Value {
-    let (k, ops) = enum_decode(Tier::Quick, i);
+fn desc_enum(t: Tier, i: u64) -> Value {
+    let (k, ops) = enum_decode(t, i);
     json!({"slots": k, "ops": format!("{:?}", ops)})
 }
 
